@@ -3,6 +3,7 @@
 package app
 
 import (
+	"strconv"
 	"sync"
 
 	"github.com/f1bonacc1/process-compose/src/types"
@@ -165,5 +166,58 @@ func VerifC03_Daemon() {
 	_ = r.ShutDownProject()
 	verifAssert("nothing.alive.after.shutdown", vAliveTotal() == 0)
 	<-runDone // a hang here is the violation
+	verifReach("end")
+}
+
+// C03 (after scaling): replicas that were renamed or added by a scale request are part of the
+// project like any other process: a project shutdown - default or ordered - ends every one of
+// them, nothing is reported running, nothing is launched afterwards and Run() returns.
+func VerifC03_AfterScale() {
+	w := vInit()
+	vBindHealth()
+	r0 := []int{1, 2}[verifChooseK("initial.replicas", 2)]
+	n := []int{1, 2, 3, 10}[verifChooseK("scale.to", 4)]
+	ordered := verifChooseK("ordered", 2) == 1
+	verifShape(strconv.Itoa(r0) + "->" + strconv.Itoa(n))
+	prj := vLoaded(r0)
+	var mu sync.Mutex
+	shutReturned := false
+	w.onStart = func(name string, attempt int) {
+		mu.Lock()
+		defer mu.Unlock()
+		if shutReturned {
+			verifFail("launch.after.shutdown.returned")
+		}
+	}
+	r := vRunner(prj, ordered)
+	runDone := make(chan error, 1)
+	go func() { runDone <- r.Run() }()
+	verifQuiesce()
+	name := "p"
+	if r0 > 1 {
+		name = (&types.ProcessConfig{Name: "p", Replicas: r0, ReplicaNum: 0}).CalculateReplicaName()
+	}
+	verifAssert("scale.succeeds", r.ScaleProcess(name, n) == nil)
+	verifQuiesce()
+	verifAssert("replicas.running.before.shutdown", vGet(w.alive, "q") == 1 && vAliveTotal() == n+1)
+	_ = r.ShutDownProject()
+	mu.Lock()
+	shutReturned = true
+	mu.Unlock()
+	if k := vAliveTotal(); k != 0 {
+		verifShape("alive:" + vAliveNames())
+		verifFail("alive.after.shutdown.returned")
+	}
+	st, err := r.GetProcessesState()
+	if err == nil {
+		for _, s := range st.States {
+			if s.IsRunning {
+				verifFail("reported.running.after.shutdown.returned")
+			}
+		}
+	}
+	<-runDone
+	verifQuiesce()
+	verifAssert("nothing.alive.at.end", vAliveTotal() == 0)
 	verifReach("end")
 }
